@@ -42,7 +42,8 @@ BOUND = {
     "two-model layouts) and one seed-chosen further variant; all programs of "
     "<=1 edit on every base x layout x flag variant (direct driver) and on "
     "three variants end to end through main_driver --clean, each with and "
-    "without --drop-water",
+    "without --drop-water; five bases (E: atoms with template aliases); the "
+    "alias edits of bases E and D paired with every other edit",
     "thorough": "all programs of <=2 edits on every base x layout x flag "
     "variant; all programs of <=3 insert-edits on base A; all <=1-edit "
     "programs end to end on every variant",
